@@ -82,7 +82,7 @@ def check_workspace(ctx, files, tag):
         srv.initialize()
         # the folder-level handlers model (coq/Model/Folder.v: f_rename) against the edits of the server
         from . import handlers_tie
-        if not handlers_tie.run(ctx, srv, b, texts, inp, kinds=(2,), per_module=(60 if ctx.thorough else 30)):
+        if not handlers_tie.run(ctx, srv, b, texts, inp, kinds=(2, 3), per_module=(60 if ctx.thorough else 30)):
             return
         k = 0
         opened = set()
